@@ -43,20 +43,32 @@ impl PidAllocator {
     }
 
     pub fn allocate(&self) -> Result<ExternalPid> {
+        #[cfg(edp_rs_verif)]
+        crate::verif_hooks::lock_point("alloc:lock", &self.wrap_lock);
         let _guard = self.wrap_lock.lock().map_err(|e| {
             Error::InvalidStateMessage(format!("PID allocator lock poisoned: {}", e))
         })?;
 
+        #[cfg(edp_rs_verif)]
+        crate::verif_hooks::point("alloc:load_id");
         let id = self.next_id.load(Ordering::Relaxed);
+        #[cfg(edp_rs_verif)]
+        crate::verif_hooks::point("alloc:load_serial");
         let serial_u64 = self.next_serial.load(Ordering::Relaxed);
         let serial = (serial_u64 % (u32::MAX as u64 + 1)) as u32;
 
         let next_id = id + 1;
         if id >= MAX_PROCESSES_PER_NODE {
+            #[cfg(edp_rs_verif)]
+            crate::verif_hooks::point("alloc:store_id_wrap");
             self.next_id.store(1, Ordering::Relaxed);
+            #[cfg(edp_rs_verif)]
+            crate::verif_hooks::point("alloc:fetch_add_serial");
             let new_serial = self.next_serial.fetch_add(1, Ordering::Relaxed) + 1;
             let wrapped_serial = (new_serial % (u32::MAX as u64 + 1)) as u32;
 
+            #[cfg(edp_rs_verif)]
+            crate::verif_hooks::point("alloc:load_creation");
             Ok(ExternalPid::new(
                 self.node_name.clone(),
                 id,
@@ -64,8 +76,12 @@ impl PidAllocator {
                 self.creation.load(Ordering::Relaxed),
             ))
         } else {
+            #[cfg(edp_rs_verif)]
+            crate::verif_hooks::point("alloc:store_id");
             self.next_id.store(next_id, Ordering::Relaxed);
 
+            #[cfg(edp_rs_verif)]
+            crate::verif_hooks::point("alloc:load_creation");
             Ok(ExternalPid::new(
                 self.node_name.clone(),
                 id,
